@@ -465,10 +465,12 @@ impl Ctx {
                         trace_case(sub, shard, &case);
                         let nsamples = acc.borrow().samples.len();
                         let mut obs = Obs { want_sample: !failed.get() && shard == 0 && nsamples < 4, ..Default::default() };
+                        slot_enter(sub, &case);
                         let r = match guard(|| oracle(&case, &mut obs)) {
                             Ok(r) => r,
                             Err(p) => Err(Failure::new(format!("harness-or-engine panic: {}", p.site()), p.what.clone())),
                         };
+                        slot_leave();
                         if !failed.get() {
                             let mut a = acc.borrow_mut();
                             a.evals += 1 + obs.extra_evals;
@@ -596,10 +598,12 @@ impl Ctx {
                         let Some(case) = nth(i) else { continue };
                         trace_case(sub, shard, &case);
                         let mut obs = Obs { want_sample: samples.len() < 2 && (slot - lo) % 997 == 0, ..Default::default() };
+                        slot_enter(sub, &case);
                         let r = match guard(|| oracle(&case, &mut obs)) {
                             Ok(r) => r,
                             Err(p) => Err(Failure::new(format!("harness-or-engine panic: {}", p.site()), p.what.clone())),
                         };
+                        slot_leave();
                         evals += 1 + obs.extra_evals;
                         nts.append(&mut obs.nontrivial);
                         for c in obs.classes.drain(..) {
@@ -656,10 +660,12 @@ impl Ctx {
             }
         };
         let mut obs = Obs { want_sample: true, ..Default::default() };
+        slot_enter(sub, &c);
         let r = match guard(|| oracle(&c, &mut obs)) {
             Ok(r) => r,
             Err(p) => Err(Failure::new(format!("harness-or-engine panic: {}", p.site()), p.what.clone())),
         };
+        slot_leave();
         self.account(sub, 1, obs.nontrivial.clone(), BTreeMap::new(), vec![case.clone()]);
         if let Err(f) = r {
             if self.judge(sub, &f) {
@@ -748,6 +754,91 @@ impl Ctx {
             0
         }
     }
+}
+
+// ---------------------------------------------------------------------------------------------
+// watchdog: every worker thread publishes (start time, pointer to the case it is executing, a
+// monomorphised serialiser); a monitor thread reports a case that runs longer than the limit.
+
+pub const STALL_EXIT: i32 = 4;
+const MAX_SLOTS: usize = 64;
+
+struct Slot {
+    start_ms: AtomicU64,
+    case_ptr: std::sync::atomic::AtomicPtr<()>,
+    ser: std::sync::atomic::AtomicUsize,
+    sub: Mutex<String>,
+}
+
+static SLOTS: [Slot; MAX_SLOTS] = {
+    #[allow(clippy::declare_interior_mutable_const)]
+    const S: Slot = Slot { start_ms: AtomicU64::new(0), case_ptr: std::sync::atomic::AtomicPtr::new(std::ptr::null_mut()), ser: std::sync::atomic::AtomicUsize::new(0), sub: Mutex::new(String::new()) };
+    [S; MAX_SLOTS]
+};
+static EPOCH: std::sync::OnceLock<Instant> = std::sync::OnceLock::new();
+
+fn now_ms() -> u64 {
+    EPOCH.get_or_init(Instant::now).elapsed().as_millis() as u64 + 1
+}
+
+fn ser_case<C: Serialize>(p: *const ()) -> String {
+    // the worker is inside the oracle call with the case alive while this runs
+    let c: &C = unsafe { &*(p as *const C) };
+    serde_json::to_string(c).unwrap_or_default()
+}
+
+thread_local! {
+    static MY_SLOT: std::cell::Cell<usize> = const { std::cell::Cell::new(usize::MAX) };
+}
+static NEXT_SLOT: AtomicU64 = AtomicU64::new(0);
+
+fn slot_enter<C: Serialize>(sub: &str, case: &C) {
+    let i = MY_SLOT.with(|s| {
+        if s.get() == usize::MAX {
+            s.set((NEXT_SLOT.fetch_add(1, Ordering::Relaxed) as usize) % MAX_SLOTS);
+            *SLOTS[s.get()].sub.lock().unwrap() = sub.to_string();
+        }
+        s.get()
+    });
+    let slot = &SLOTS[i];
+    slot.case_ptr.store(case as *const C as *mut (), Ordering::Release);
+    slot.ser.store(ser_case::<C> as usize, Ordering::Release);
+    slot.start_ms.store(now_ms(), Ordering::Release);
+}
+
+fn slot_leave() {
+    let i = MY_SLOT.with(|s| s.get());
+    if i != usize::MAX {
+        SLOTS[i].start_ms.store(0, Ordering::Release);
+    }
+}
+
+/// Started once by the worker process.  A case running longer than `limit_s` is written to
+/// `<stall_dir>/stall.json` (a replay file) and the process exits with STALL_EXIT; the parent
+/// re-runs that single case to decide between "hang" (violation) and "inconclusive".
+pub fn start_watchdog(prop: String, limit_s: u64, stall_dir: String) {
+    std::thread::spawn(move || loop {
+        std::thread::sleep(std::time::Duration::from_millis(1000));
+        let now = now_ms();
+        for slot in SLOTS.iter() {
+            let st = slot.start_ms.load(Ordering::Acquire);
+            if st != 0 && now.saturating_sub(st) > limit_s * 1000 {
+                let p = slot.case_ptr.load(Ordering::Acquire);
+                let f = slot.ser.load(Ordering::Acquire);
+                if p.is_null() || f == 0 || slot.start_ms.load(Ordering::Acquire) != st {
+                    continue;
+                }
+                let ser: fn(*const ()) -> String = unsafe { std::mem::transmute(f) };
+                let case = ser(p as *const ());
+                let sub = slot.sub.lock().map(|s| s.clone()).unwrap_or_default();
+                let _ = std::fs::create_dir_all(&stall_dir);
+                let body = format!("{{\"property\": {:?}, \"sub\": {:?}, \"case\": {}, \"note\": \"case did not finish within {} s\"}}", prop, sub, if case.is_empty() { "null".to_string() } else { case }, limit_s);
+                let _ = std::fs::write(format!("{stall_dir}/stall.json"), body);
+                println!("STALL: a case of sub-check {sub} has been running for more than {limit_s} s; written to {stall_dir}/stall.json");
+                std::process::exit(STALL_EXIT);
+            }
+        }
+    });
 }
 
 /// Development / abort diagnosis aid: with VERIF_TRACE_DIR set, every case is written to
